@@ -206,7 +206,44 @@ def gen(rng, tier):
             lines.append("m.cv xi ft"); el = len(lines)
             steps.append({"flags": fl, "z": z, "fz": fz, "step": sl, "value": vl, "tf": tl, "engine": el})
         cases.append({"lines": lines, "meta": {"flags": {"coef": coef, "steps": steps}, "queries": [], "ncmd": 0, "expect_counts": []}, "nontrivial": True})
+    # a state saved by a session that was configured piece by piece through the script (objects in call order) loaded by a session that
+    # got the same text as one configuration (objects in the parser's type order): every object must find its block
+    for k in range(3 if tier == "quick" else 20):
+        pfx = os.path.join(scratch, "so%d" % k)
+        vconf = inj_cv("x0", 0, -3.0, 3.0, 0.5) + inj_cv("x1", 1, -3.0, 3.0, 0.5)
+        hist = "histogram {\n name hs\n colvars x0\n}\n"
+        c0 = rng.uniform(-1, 0); c1 = c0 + rng.uniform(1.0, 2.0)
+        harm = "harmonic {\n name hm\n colvars x1\n centers %s\n targetCenters %s\n targetNumSteps 40\n forceConstant 2.0\n outputAccumulatedWork on\n}\n" % (num(c0), num(c1))
+        walls = "harmonicWalls {\n name hw\n colvars x0\n upperWalls 0.5\n forceConstant 1.0\n targetForceConstant 3.0\n targetNumSteps 30\n}\n"
+        pieces = [hist, walls, harm]
+        if k % 2:
+            pieces = [walls, hist, harm]
+        lines = ["m.new 2", "M.noclock", cfg(vconf)] + ["m.script cv config " + esc(p_) for p_ in pieces]
+        for t in range(rng.randint(6, 12)):
+            lines += [pos(0, 0.0, 0.0, rng.uniform(-1, 1)), pos(1, 0.0, 0.0, rng.uniform(-1, 1)), "m.step"]
+        lines += ["r.dump hm"]; a_r = len(lines)
+        lines += ["r.dump hw"]; a_w = len(lines)
+        lines += ["h.dump hs"]; a_h = len(lines)
+        lines += ["m.save %s" % pfx, "m.new 2", "M.noclock", cfg(vconf + hist + walls + harm), "m.load %s" % pfx]; ld = len(lines)
+        lines += ["r.dump hm"]; b_r = len(lines)
+        lines += ["r.dump hw"]; b_w = len(lines)
+        lines += ["h.dump hs"]; b_h = len(lines)
+        cases.append({"lines": lines, "meta": {"stateorder": {"a": [a_r, a_w, a_h], "b": [b_r, b_w, b_h], "load": ld, "order": [p_.split()[0] for p_ in pieces]},
+                                               "queries": [], "ncmd": 0, "expect_counts": []}, "nontrivial": True})
     return cases
+
+
+def stateorder_oracle(so, out):
+    if out.get((so["load"], "rc", 1)) != ["i0"]:
+        return ["a state saved by a session configured piece by piece (%s) could not be loaded by a session configured in one piece" % ", ".join(so["order"])]
+    for (la, lb, what, tags) in ((so["a"][0], so["b"][0], "the moving restraint hm", ("centers", "work", "stage")),
+                                 (so["a"][1], so["b"][1], "the walls hw", ("k", "stage")), (so["a"][2], so["b"][2], "the histogram hs", ("data",))):
+        for tag in tags:
+            va = vals(out, la, tag); vb = vals(out, lb, tag)
+            if va is None or vb is None or len(va) != len(vb) or any(abs(x - y) > 1e-9 * max(1.0, abs(x)) for x, y in zip(va, vb)):
+                return ["state saved by a session configured through the script in the order (%s) and loaded by a session configured in one piece: %s of %s is %r after "
+                        "loading, the saving session held %r (the block of that object was not applied)" % (", ".join(so["order"]), tag, what, vb, va)]
+    return []
 
 
 def flags_oracle(fm, out):
@@ -281,6 +318,8 @@ def oracle(case, out):
         return callback_oracle(case["meta"]["callback"], out)
     if case["meta"].get("flags"):
         return flags_oracle(case["meta"]["flags"], out)
+    if case["meta"].get("stateorder"):
+        return stateorder_oracle(case["meta"]["stateorder"], out)
     # translator cross-check: the regenerated table equals the table of the running library
     for i, line in enumerate(L, 1):
         if line == "s.table":
